@@ -203,19 +203,36 @@ func eqConstCond(cond ssa.Value, want bool) (x ssa.Value, s string, ok bool) {
 
 // rawTextCond: the condition (with polarity) says a tag name is "script" or "style" — directly or
 // through a module predicate whose constants are within {script, style}. why names what else it accepts.
+//
+// In the engine's serialiser the set is {script, style}: these two are written raw although they may hold
+// data, by design; every other element is escaped. The formatter holds no data: there the set is what the
+// HTML parser itself reads as raw text (script, style, xmp, iframe, noembed, noframes) — content the parser
+// did not decode must not be escaped (C19.R14).
 func (p *Prog) rawTextCond(cond ssa.Value, want bool) (ok bool, why string) {
 	if cond == nil {
 		return false, ""
 	}
+	raw := func(s string) bool { return s == "script" || s == "style" }
+	if in, isInstr := cond.(ssa.Instruction); isInstr && in.Parent() != nil {
+		if pk := funcPkg(in.Parent()); pk != nil && pk.Path() == formatterPkg {
+			raw = func(s string) bool {
+				switch s {
+				case "script", "style", "xmp", "iframe", "noembed", "noframes":
+					return true
+				}
+				return false
+			}
+		}
+	}
 	if _, s, isEq := eqConstCond(cond, want); isEq {
-		if s == "script" || s == "style" {
+		if raw(s) {
 			return true, ""
 		}
 		return false, "tag \"" + s + "\""
 	}
 	if _, set, member, isM := inSetOnEdge(cond, want); isM && member && len(set) > 0 {
 		for _, s := range set {
-			if s != "script" && s != "style" {
+			if !raw(s) {
 				return false, "tag \"" + s + "\""
 			}
 		}
@@ -226,7 +243,7 @@ func (p *Prog) rawTextCond(cond ssa.Value, want bool) (ok bool, why string) {
 			cs := constsComparedWithParam(callee, 0)
 			within := len(cs) > 0
 			for _, s := range cs {
-				if s != "script" && s != "style" {
+				if !raw(s) {
 					within = false
 					why = "helper " + shortName(callee) + " also accepts \"" + s + "\""
 				}
